@@ -404,6 +404,68 @@ func main() {
 		o.Set("peer.readIndexPerRead", pg+":LinearizableRead/startReadIndex", fmt.Sprint(perRead), shape, "true")
 	}
 
+	// ------------------------------------------------------------ WaitApplied waits for exactly the index it is given
+	{
+		wa := pf.Func("Peer.WaitApplied")
+		exact, clamped, shape := false, false, wa != nil && wa.Body != nil
+		if shape {
+			// body = nil/zero guard + `return p.applyMark.WaitForMark(ctx, index)`, and nothing
+			// ever assigns to `index` (no clamp / min with what the apply loop has begun)
+			ast.Inspect(wa.Body, func(x ast.Node) bool {
+				switch n := x.(type) {
+				case *ast.AssignStmt:
+					for _, l := range n.Lhs {
+						if id, ok := l.(*ast.Ident); ok && id.Name == "index" {
+							clamped = true
+						}
+					}
+				case *ast.IncDecStmt:
+					if id, ok := n.X.(*ast.Ident); ok && id.Name == "index" {
+						clamped = true
+					}
+				}
+				return true
+			})
+			two := len(wa.Body.List) == 2
+			guard := false
+			if two {
+				if is, ok := wa.Body.List[0].(*ast.IfStmt); ok {
+					guard = pf.Src(is.Cond) == "p == nil || p.applyMark == nil || index == 0" && pf.Src(is.Body) == "{ return nil }"
+				}
+			}
+			exact = two && guard && !clamped && pf.Src(wa.Body.List[1]) == "return p.applyMark.WaitForMark(ctx, index)"
+			shape = exact || clamped
+		}
+		o.Set("peer.waitAppliedExact", pg+":WaitApplied", fmt.Sprint(exact), shape, "true")
+
+		// handleReady: readers are released (ReadStates) before the committed entries of the same
+		// Ready are begun, applied and marked done - which is why WaitApplied must really wait
+		hr := pf.Func("Peer.handleReady")
+		hb := body(hr)
+		type item struct {
+			name string
+			pos  token.Pos
+		}
+		var items []item
+		for _, pr := range [][2]string{{"readStates", "p.handleReadStates"}, {"beginApply", "p.beginApply"}, {"apply", "p.apply"}, {"finishApply", "p.finishApply"}} {
+			if pos := callPos(pf, hb, pr[1]); pos >= 0 {
+				items = append(items, item{pr[0], pos})
+			}
+		}
+		for i := 0; i < len(items); i++ {
+			for j := i + 1; j < len(items); j++ {
+				if items[j].pos < items[i].pos {
+					items[i], items[j] = items[j], items[i]
+				}
+			}
+		}
+		var names []string
+		for _, it := range items {
+			names = append(names, it.name)
+		}
+		o.Set("peer.readyOrder", pg+":handleReady", strings.Join(names, ","), len(names) == 4, "readStates,beginApply,apply,finishApply")
+	}
+
 	f := o.Facts
 	lean := fmt.Sprintf(`-- GENERATED by /verif/extract/cmd/cluster from the current /repo working tree. Do not edit.
 import NoKVModel.Cluster.Pipeline
@@ -422,7 +484,8 @@ def svcCfg : SvcCfg :=
 end NoKV.Generated.Cluster
 `, f["pipe.applyChecksProposer"], f["pipe.completeDeletes"], f["pipe.registerRejectsDup"],
 		f["val.leaderOp"], leanState(f["val.leaderConst"]), f["val.rejectReturns"],
-		f["read.readIndexFirst"], f["read.waitsApplied"],
+		f["read.readIndexFirst"],
+		fmt.Sprint(f["read.waitsApplied"] == "true" && f["peer.waitAppliedExact"] == "true" && f["peer.waitAppliedUsesMark"] == "true"),
 		fmt.Sprint(f["peer.readOnlyOption"] == "safe" && f["peer.readIndexPerRead"] == "true" && f["peer.readIndexViaRaft"] == "true"))
 	o.Write(*jsonOut, *leanOut, lean)
 }
